@@ -43,7 +43,7 @@ def stEq (a b : St) : Bool :=
 
 /-- exact squared distances only on integer-grid families -/
 def exactFam (fam : String) : Bool :=
-  fam.startsWith "grid" || fam == "line" || fam == "circle"
+  fam.startsWith "grid" || fam == "line" || fam == "circle" || fam == "offset"
 
 def vertsMatch (s : St) (a : AState) : Bool :=
   s.pos.size == a.verts.size &&
@@ -144,6 +144,25 @@ def validPt (tx ty : String) : Except String (Except InsErr Pt) :=
         | none => .error "non-finite valid?"
   | _, _ => .error "bad coordinate token"
 
+/-- the property whose operation did not return (a call that panics or hangs does not "return the
+element …"): appended to C07 for panics and timeouts -/
+def opProp (name : String) : String :=
+  match name with
+  | "loc" | "loch" => ",C09"
+  | "nn" => ",C15"
+  | "hull" => ",C14"
+  | "line" | "lineh" => ",C17"
+  | "rectv" | "recte" | "circv" | "circe" => ",C16"
+  | "vor" => ",C18"
+  | "bary" | "nnw" => ",C19"
+  | "refine" => ",C20"
+  | "consplit" => ",C13"
+  | "con" | "trycon" | "canadd" | "confv" | "confp" | "isect" | "exists" => ",C12"
+  | "bulk" => ",C10"
+  | "rm" | "trm" | "lrm" => ",C11"
+  | "ins" | "insh" => ",C05"
+  | _ => ""
+
 def isDocumentedPanic (msg : String) : Bool :=
   (msg.splitOn "Constraint edges must not intersect").length > 1
 
@@ -192,7 +211,7 @@ def judge (h : HCtx) (op res : Array String) (dump : Option St) : HCtx × List F
   if h.tainted then (h, []) else
   -- universal outcomes
   if r0 == "timeout" then
-    ({ h with ended := true }, [⟨"C07", "timeout", name⟩])
+    ({ h with ended := true }, [⟨"C07" ++ opProp name, "timeout", name⟩])
   else if r0 == "skip" || r0 == "unsupported" || r0 == "dead" then (h, [])
   else if r0 == "panic" then
     let msg := " ".intercalate (res.toList.drop 1)
@@ -206,7 +225,7 @@ def judge (h : HCtx) (op res : Array String) (dump : Option St) : HCtx × List F
           | some a, some b => chk (!(h.abs.canAdd a b)) "C12,C07" "con-panic-but-addable" (fun _ => msg)
           | _, _ => []
         else []
-      else [⟨"C07", "panic", s!"{name}: {msg}"⟩]
+      else [⟨"C07" ++ opProp name, "panic", s!"{name}: {msg}"⟩]
     ({ h with ended := true }, fails)
   else
   let s := h.cur
